@@ -111,15 +111,65 @@ def run(prog, tier):
     rec = indexsites.recursion_sites(prog)
     want = ['ezc3d::c3d::readParam', 'ezc3d::c3d::readParam', 'ezc3d::c3d::_readMatrix', 'ezc3d::c3d::_dispatchMatrix']
     have = sorted(prog.funcs[u].qname for u in rec if prog.funcs[u].qname in want)
+    cg = prog.callgraph()
+    recursive = [f for f in load if f.usr in cg.get(f.usr, ())]
+
+    def bounded(f):
+        """every recursive call passes (depth + 1) for one parameter and the unchanged dimension list for
+        another, under a test of depth against the list's size: -> 'bounded' / 'same-arguments' / 'unknown'"""
+        from paths import Renderer
+        R = Renderer(f)
+        calls = [c for c in f.calls() if c['callee']['usr'] == f.usr]
+        if not calls:
+            return 'bounded'
+        for c in calls:
+            args = [R.render(a) for a in f.call_args(c)]
+            if all(a == 'arg%d' % i for i, a in enumerate(args)):
+                return 'same-arguments'
+        for k in range(len(f.params)):
+            if not all(len(f.call_args(c)) > k and R.render(f.call_args(c)[k]) in ('(arg%d + 1)' % k, '(1 + arg%d)' % k) for c in calls):
+                continue
+            for j in range(len(f.params)):
+                if j == k or not all(R.render(f.call_args(c)[j]) == 'arg%d' % j for c in calls):
+                    continue
+                tests = ('(arg%d == (arg%d.size - 1))' % (k, j), '((arg%d.size - 1) == arg%d)' % (j, k), '(arg%d != (arg%d.size - 1))' % (k, j), '(arg%d < (arg%d.size - 1))' % (k, j),
+                         '((arg%d + 1) < arg%d.size)' % (k, j), '((arg%d + 1) == arg%d.size)' % (k, j), '((arg%d + 1) != arg%d.size)' % (k, j))
+                good = True
+                for c in calls:
+                    okc = False
+                    for a in f.ancestors(c['id']):
+                        an = f.nodes[a]
+                        if an['k'] == 'IfStmt' and R.render(an['cond']) in tests:
+                            okc = True
+                    # or the depth test returned before the call is reached (hoisted form)
+                    if not okc:
+                        import indexsites as _IS
+                        okc = any((l == 'arg%d' % k and op in ('!=', '<') and r_ == '(arg%d.size - 1)' % j) for l, op, r_, _ in _IS.facts_at(f, R, c['id']))
+                    good = good and okc
+                if good:
+                    return 'bounded'
+        return 'unknown'
+    verdicts = {f.usr: bounded(f) for f in recursive}
+    missing = [q for q in set(want) if q not in have]
     if have == sorted(want):
         res.ok('recursion', 'matrix readers follow the recursion scheme', 'src/ezc3d.cpp', 'depth = number of dimensions (one unsigned byte), each level loops over one dimension byte', function='', expr='scheme')
+    elif all(v == 'bounded' for v in verdicts.values()) and recursive:
+        res.ok('recursion', 'matrix readers follow the recursion scheme', 'src/ezc3d.cpp', 'every recursive function on the load path (%s) increases its depth argument by one under a test against the size of the unchanged dimension list' %
+               ', '.join(sorted({f.name for f in recursive})), function='', expr='scheme')
+    elif any(v == 'same-arguments' for v in verdicts.values()):
+        bad = [f for f in recursive if verdicts[f.usr] == 'same-arguments'][0]
+        res.viol('recursion', 'matrix readers follow the recursion scheme', bad.loc(), '%s calls itself with unchanged arguments' % bad.qname, function='', expr='scheme')
     else:
-        res.viol('recursion', 'matrix readers follow the recursion scheme', 'src/ezc3d.cpp', 'only %s match `for (i < dim[cur]) cur == last ? leaf : recurse(cur + 1)`' % have, function='', expr='scheme')
+        res.undecided('recursion', 'matrix readers follow the recursion scheme', 'src/ezc3d.cpp', 'only %s match `for (i < dim[cur]) cur == last ? leaf : recurse(cur + 1)`; the others are in a form the rule does not read [shape not read by the rule]' % have,
+                      function='', expr='scheme')
     # any other recursion on the load path
-    cg = prog.callgraph()
-    for f in load:
-        if f.usr in cg.get(f.usr, ()) and f.usr not in rec:
-            res.viol('recursion', 'unbounded recursion in %s' % f.qname, f.loc(), 'recursive function on the load path that does not follow the bounded scheme', function=f.sig, expr='rec:' + f.qname)
+    for f in recursive:
+        if f.usr in rec or verdicts[f.usr] == 'bounded':
+            continue
+        if verdicts[f.usr] == 'same-arguments':
+            res.viol('recursion', 'unbounded recursion in %s' % f.qname, f.loc(), 'recursive function on the load path that calls itself with unchanged arguments', function=f.sig, expr='rec:' + f.qname)
+        else:
+            res.undecided('recursion', 'recursion in %s' % f.qname, f.loc(), 'recursive function on the load path whose depth bound the rule cannot read [shape not read by the rule]', function=f.sig, expr='rec:' + f.qname)
     # ---- checked-read --------------------------------------------------------------------------------
     rf = prog.fn('ezc3d::c3d::readFile', nparams=4)
     reads = [c for c in rf.calls() if c['callee']['name'] == 'read' and c['callee'].get('classq', '').startswith('std::basic_istream')]
